@@ -1,5 +1,8 @@
 use core::ops::Bound::{Included, Unbounded};
-use std::{cmp::max, collections::BTreeMap};
+use std::{
+  cmp::{max, min},
+  collections::BTreeMap,
+};
 
 #[allow(unused_imports)]
 use log::{debug, error, info, trace, warn};
@@ -279,10 +282,17 @@ impl RtpsWriterProxy {
         self.ack_base, remove_from, remove_until_before, self.remote_writer_guid
       );
     } else {
-      // TODO: This potentially generates a very large BTreeMap
-      for na in
-        SequenceNumber::range_inclusive(remove_from, remove_until_before - SequenceNumber::new(1))
-      {
+      // The size of the range is whatever the GAP submessage claims, so do not insert a
+      // marker for every sequence number in it. Markers have an effect only within the
+      // window that the next ACKNACK can request, i.e. 256 sequence numbers from ack_base.
+      // If the rest of the range still matters when ack_base has advanced that far, we
+      // will request those sequence numbers, and the writer must answer with a GAP
+      // again, which then starts at ack_base and is handled by the branch above.
+      let last_to_mark = min(
+        remove_until_before - SequenceNumber::new(1),
+        self.ack_base + SequenceNumber::new(255),
+      );
+      for na in SequenceNumber::range_inclusive(remove_from, last_to_mark) {
         self.changes.insert(na, None);
       }
     }
@@ -381,6 +391,19 @@ impl RtpsWriterProxy {
         .range(self.ack_base..)
         .map(|(sn, _)| i64::from(*sn))
         .collect(),
+    )
+  }
+}
+
+// Verification hook: read-only view of the sequence number bookkeeping.
+#[cfg(rustdds_verif)]
+impl RtpsWriterProxy {
+  /// (ack_base, keys of `changes`, received_heartbeat_count)
+  pub(crate) fn verif_digest(&self) -> (i64, Vec<i64>, i32) {
+    (
+      i64::from(self.ack_base),
+      self.changes.keys().map(|sn| i64::from(*sn)).collect(),
+      self.received_heartbeat_count,
     )
   }
 }
